@@ -84,6 +84,23 @@ MUTATIONS = [
                  }
                  $ret_val
              } else {""")]},
+    # ---- C08 (single arms: `which` selects one occurrence)
+    {"name": "c08_one_arm_budget_flipped", "props": ["C08"], "edits": [(MACROS, "if prev >= $expected {", "if prev > $expected {", 28, 17)]},
+    {"name": "c08_one_arm_when_ignored", "props": ["C08"], "edits": [(MACROS, "if $cond {", "if true || $cond {", 20, 12)]},
+    {"name": "c08_one_arm_returns_before_assign", "props": ["C08"], "edits": [(MACROS, "                { $($assign)* }\n                $ret_val\n", "                let r = $ret_val;\n                { $($assign)* }\n                r\n", 10, 6)]},
+    {"name": "c08_one_arm_counter_after_assign", "props": ["C08"], "edits": [(MACROS, """                let prev = FAKE_COUNTER.fetch_add(1, Ordering::SeqCst);
+                if prev >= $expected {
+                    panic!("Fake function defined at {}:{}:{} called more times than expected", file!(), line!(), column!());
+                }
+                { $($assign)* }
+                $ret_val""", """                { $($assign)* }
+                let prev = FAKE_COUNTER.fetch_add(1, Ordering::SeqCst);
+                if prev >= $expected {
+                    panic!("Fake function defined at {}:{}:{} called more times than expected", file!(), line!(), column!());
+                }
+                $ret_val""", 5, 3)]},
+    {"name": "c08_unit_arm_unbound_ret", "props": ["C08"], "edits": [(MACROS, "         let f: fn($($arg_ty),*) -> () = fake;", "         let f: fn($($arg_ty),*) -> $ret = fake;", 7, 1)]},
+    {"name": "c08_system_arm_defines_c_abi_fake", "props": ["C08"], "edits": [(MACROS, 'unsafe extern "system" fn fake($($arg_name: $arg_ty),*) -> $ret {', 'unsafe extern "C" fn fake($($arg_name: $arg_ty),*) -> $ret {', 7, 2)]},
     # ---- C14
     {"name": "c14_async_guard_forgotten", "props": ["C14"], "edits": [(INJ, """    pub fn will_return_async(self, target: FuncPtr) {
         if target.signature != self.expected_signature {
